@@ -22,6 +22,7 @@ import (
 	"encoding/hex"
 	"fmt"
 	"os"
+	"reflect"
 	goruntime "runtime"
 	"sort"
 	"strconv"
@@ -294,8 +295,24 @@ type releaser struct {
 
 func (r *releaser) ReleaseResources(d *rt.UserData) { *r.log = append(*r.log, "rel:"+r.name) }
 
-func runLua(src []byte, gcwait bool, doClose bool, reuse bool) (status string, log []string, errmsg string) {
+func runLua(src []byte, gcwait bool, doClose bool, reuse bool, mockgc bool) (status string, log []string, errmsg string) {
 	var stdout bytes.Buffer
+	// mockgc: the Go collector is replaced by a deterministic stand-in.  runtime.SetFinalizer calls of the finaliser
+	// pools are recorded (object -> the pool's goFinalizer method value) instead of being made, and the Lua global
+	// collect(v, ...) plays the collector: for every argument that has a recorded finaliser it removes it (Go clears a
+	// finaliser before running it) and calls it — exactly what the Go runtime does once the value is unreachable.  All
+	// arguments of one collect call are collected before the runtime looks at its pending lists again (one batch).
+	armed := map[interface{}]interface{}{}
+	if mockgc {
+		restore := rt.VerifSetFinalizerHook(func(obj interface{}, fin interface{}) {
+			if fin == nil {
+				delete(armed, obj)
+			} else {
+				armed[obj] = fin
+			}
+		})
+		defer restore()
+	}
 	r := rt.New(&stdout)
 	cleanup := lib.LoadAll(r)
 	defer cleanup()
@@ -310,6 +327,26 @@ func runLua(src []byte, gcwait bool, doClose bool, reuse bool) (status string, l
 		log = append(log, "l:"+s)
 		return c.Next(), nil
 	}, 1, false)
+	reg("collect", func(t *rt.Thread, c *rt.GoCont) (rt.Cont, error) {
+		n := 0
+		for _, v := range c.Etc() {
+			var obj interface{}
+			switch v.Type() {
+			case rt.TableType:
+				obj = v.AsTable()
+			case rt.UserDataType:
+				obj = v.AsUserData()
+			default:
+				continue
+			}
+			if fin, ok := armed[obj]; ok {
+				delete(armed, obj)
+				reflect.ValueOf(fin).Call([]reflect.Value{reflect.ValueOf(obj)})
+				n++
+			}
+		}
+		return c.PushingNext1(t.Runtime, rt.IntValue(int64(n))), nil
+	}, 0, true)
 	reg("mkud", func(t *rt.Thread, c *rt.GoCont) (rt.Cont, error) {
 		name, _ := c.Arg(0).ToString()
 		var meta *rt.Table
@@ -379,7 +416,7 @@ func luaEngine(in *bufio.Scanner, out *bufio.Writer) {
 		if err != nil {
 			continue
 		}
-		gcwait, doClose, reuse := false, true, false
+		gcwait, doClose, reuse, mockgc := false, true, false, false
 		for _, kv := range f[2:] {
 			switch kv {
 			case "gcwait=1":
@@ -388,9 +425,11 @@ func luaEngine(in *bufio.Scanner, out *bufio.Writer) {
 				doClose = false
 			case "reuse=1":
 				reuse = true
+			case "mockgc=1":
+				mockgc = true
 			}
 		}
-		status, log, errmsg := runLua(src, gcwait, doClose, reuse)
+		status, log, errmsg := runLua(src, gcwait, doClose, reuse, mockgc)
 		ls := "-"
 		if len(log) > 0 {
 			ls = strings.Join(log, ";")
